@@ -177,6 +177,37 @@ impl World {
                 }
                 sink(ev);
             }
+            // production-configuration scripts: poll until something is reported (at most max_ms of real time);
+            // logged as ONE poll - the one a caller sees who polls until the value arrives.  The script
+            // declares a time step of the timeout before it, so the specification expects the late result.
+            "spin" => {
+                let id = geti(cmd, "id");
+                let ch = geti(cmd, "ch") as u8;
+                let max_ms = cmd.get("max_ms").and_then(|v| v.as_u64()).unwrap_or(2000);
+                let t0 = std::time::Instant::now();
+                let q = Quick::Poll { id, ch };
+                let mut n = 0u64;
+                let mut allocs = 0u64;
+                let (mut last, mut flag, mut snow);
+                loop {
+                    let (r, f, sn) = self.exec_quick(&q);
+                    n += 1;
+                    allocs += r.allocs;
+                    let done = !r.out.is_empty() || r.panicked || t0.elapsed().as_millis() as u64 > max_ms;
+                    last = r;
+                    flag = f;
+                    snow = sn;
+                    if done {
+                        break;
+                    }
+                }
+                last.allocs = allocs;
+                let mut c2 = cmd.clone();
+                put(&mut c2, "op", json!("poll"));
+                let mut e = event_quick(&c2, &q, &last, flag, snow);
+                put(&mut e, "spin", json!(n));
+                sink(e);
+            }
             // the same command n times; of a run of identical events only the first two and the last are
             // logged, the rest is summarised by a "skip" event
             "rep" => {
